@@ -5,7 +5,7 @@ from harness import core
 from props import time_common as tc
 
 BASE = dict(MaxLen=3, MaxT=4, Lo=1, Small=set(), MaxLenS=2, MaxTS=3, Ds={0, 1, 2}, AbsLo=1, Terms={"C", "E", "U"}, AuxLen=1,
-            SpecKs={"N", "C", "E", "U", "X"}, SpecTs={0, 2}, Hz=7, DispOps=set(), DispLen=1)
+            SpecKs={"N", "C", "E", "U", "X"}, SpecTs={0, 2}, Hz=7, DispOps=set(), DispLen=1, EchoOps=set(), EchoKs=set())
 
 WINDOWS = ["take_with_time", "take_until_with_time", "take_until_abs", "skip_with_time", "skip_until_with_time", "skip_until_abs",
            "take_last_with_time", "skip_last_with_time"]
